@@ -26,10 +26,16 @@ from common import spec, cfgpath
 
 REQS = {'a': ('GET', '/item/alpha', 't=ta'), 'b': ('GET', '/item/beta', 't=tb'), 'c': ('GET', '/nb/gamma', 't=tg'),
         'boom1': ('GET', '/boom/x1', 't=t1'), 'boom2': ('GET', '/boom/x2', 't=t2'),
-        'nf': ('GET', '/nowhere', 't=tn'), 'na': ('POST', '/item/zeta', 't=tz'), 'redir': ('GET', '/branch', 't=tr')}
-NAME_OWNER = {'alpha': 'a', 'beta': 'b', 'gamma': 'c', 'x1': 'boom1', 'x2': 'boom2', 'zeta': 'na'}
-TOKEN_OWNER = {'ta': 'a', 'tb': 'b', 'tg': 'c', 't1': 'boom1', 't2': 'boom2', 'tn': 'nf', 'tz': 'na', 'tr': 'redir'}
-FIXED = ('nf', 'na', 'redir')
+        'nf': ('GET', '/nowhere', 't=tn'), 'na': ('POST', '/item/zeta', 't=tz'), 'redir': ('GET', '/branch', 't=tr'),
+        # two method-restricted routes on one path: a request neither admits (405), and one for each of them
+        'dna': ('DELETE', '/dual/delta', 't=td'), 'dget': ('GET', '/dual/eps', 't=te'), 'dpost': ('POST', '/dual/phi', 't=tp'),
+        # two 404s that negotiate different representations
+        'nfh': ('GET', '/nowhere/h', 't=th', 'text/html'), 'nfj': ('GET', '/nowhere/j', 't=tj', 'application/json')}
+NAME_OWNER = {'alpha': 'a', 'beta': 'b', 'gamma': 'c', 'x1': 'boom1', 'x2': 'boom2', 'zeta': 'na', 'delta': 'dna', 'eps': 'dget',
+              'phi': 'dpost'}
+TOKEN_OWNER = {'ta': 'a', 'tb': 'b', 'tg': 'c', 't1': 'boom1', 't2': 'boom2', 'tn': 'nf', 'tz': 'na', 'tr': 'redir', 'td': 'dna',
+               'te': 'dget', 'tp': 'dpost', 'th': 'nfh', 'tj': 'nfj'}
+FIXED = ('nf', 'na', 'redir', 'dna', 'nfh', 'nfj')
 FAILS = ('boom1', 'boom2')
 # the spec (Threads.tla) names plain requests a/b; 'c' (non-breaking fall-through) behaves like them
 
@@ -72,7 +78,15 @@ def build(W):
 
     def ep_nb1(name):
         raise NotFound('soft %s' % name, is_breaking=False)
+    from clastic import POST
+
+    def ep_dual_post(request, name, token):
+        W.log({'a': 'endpoint', 'params': ['params', NAME_OWNER.get(name, 'ALIEN')],
+               'token': ['token', TOKEN_OWNER.get(token, 'ALIEN')], 'rid': getattr(request, 'request_id', -1)})
+        return {'name': name, 'token': token, 'path': request.path, 't': request.args.get('t'), 'via': 'post-route'}
     routes = [GET('/item/<name>', ep_item, render_item),
+              GET('/dual/<name>', ep_item, render_item),
+              POST('/dual/<name>', ep_dual_post, render_item),
               ('/boom/<name>', ep_boom),
               ('/nb/<name>', ep_nb1),
               ('/nb/<name>', ep_item, render_item),
@@ -82,19 +96,22 @@ def build(W):
 
 def do_request(app, rname):
     from werkzeug.test import create_environ, run_wsgi_app
-    method, path, qs = REQS[rname]
+    method, path, qs = REQS[rname][:3]
     env = create_environ(path, method=method, query_string=qs)
+    if len(REQS[rname]) > 3:
+        env['HTTP_ACCEPT'] = REQS[rname][3]
     app_iter, status, headers = run_wsgi_app(app, env)
     body = b''.join(app_iter).decode('utf8', 'replace')
-    return int(status.split()[0]), body, dict(headers).get('Location')
+    h = dict(headers)
+    return int(status.split()[0]), body, h.get('Location'), h.get('Content-Type')
 
 
 def project_resp(rname, res, baseline):
     if isinstance(res, BaseException):
         return ['escaped', type(res).__name__]
-    status, body, loc = res
+    status, body, loc, ctype = res
     if rname in FIXED:
-        return ['fixed', rname if (status, body, loc) == baseline[rname] else 'DIFFERS']
+        return ['fixed', rname if (status, body, loc, ctype) == baseline[rname] else 'DIFFERS']
     if rname in FAILS:
         import re
         m = re.search(r'boom-(\w+)-(\w+)-(\w+)', body)
@@ -108,7 +125,8 @@ def project_resp(rname, res, baseline):
         return [str(status), ['params', 'UNPARSEABLE'], ['token', 'UNPARSEABLE']]
     owners = set([NAME_OWNER.get(d.get('name')), TOKEN_OWNER.get(d.get('token')), TOKEN_OWNER.get(d.get('rtoken')),
                   TOKEN_OWNER.get(d.get('t'))])
-    ok_path = d.get('path') == REQS[rname][1] and d.get('rpath') == REQS[rname][1]
+    ok_path = d.get('path') == REQS[rname][1] and d.get('rpath') == REQS[rname][1] and \
+        (d.get('via') == 'post-route') == (rname == 'dpost')
     if len(owners) == 1 and ok_path:
         o = owners.pop()
         return [str(status), ['params', o], ['token', o]]
@@ -167,7 +185,12 @@ def check(run):
     W = World()
     app = build(W)
     W.tl.p = 0
-    baseline = dict((r, do_request(app, r)) for r in REQS)
+    # "the response it would get if it were served alone": each baseline comes from a FRESH application
+    baseline = {}
+    for r in REQS:
+        Wb = World()
+        Wb.tl.p = 0
+        baseline[r] = do_request(build(Wb), r)
     repo = common.REPO
     traces = []
     tid = 0
@@ -175,7 +198,8 @@ def check(run):
     names = sorted(REQS)
     pairs = [(x, y) for x in names for y in names]
     if quick:
-        pairs = rng.sample(pairs, 14)
+        must = [('nfh', 'nfj'), ('nfj', 'nfh'), ('dna', 'dpost'), ('dpost', 'dna'), ('a', 'b'), ('boom1', 'a'), ('c', 'redir')]
+        pairs = must + rng.sample([p_ for p_ in pairs if p_ not in must], 8)
     npre = 0
     for x, y in pairs:
         # length of x alone under the scheduler
